@@ -281,12 +281,23 @@ func VerifC14Model() { verifC14Run(false) }
 // (re-creation of a deleted entry is then within reach of the quick tier's two steps).
 func VerifC14AfterDelete() { verifC14Run(true) }
 
-func verifC14Run(deleteFirst bool) {
+// VerifC14HeldReference: the same, with a reference taken to the first version (GetEntry) and one block passed before the
+// free steps: superseded and deleted versions then sit behind a version that stays referenced, which is where the store's
+// garbage collection keeps stale versions as markers.
+func VerifC14HeldReference() { verifC14RunPrefix(false, true) }
+
+func verifC14Run(deleteFirst bool) { verifC14RunPrefix(deleteFirst, false) }
+
+func verifC14RunPrefix(deleteFirst, holdFirst bool) {
 	w := verifC14NewWorld()
 	val := int64(1)
 	w.step(0, val)
 	if deleteFirst {
 		w.step(2, 0)
+	}
+	if holdFirst {
+		w.step(4, 0)
+		w.advance(1)
 	}
 	steps := verif_param("steps", 2)
 	for s := 0; s < steps; s++ {
